@@ -173,8 +173,22 @@ def spec_call(engine, st, name, node):
         # ifbound('x', default): the local x if it has been assigned on this path, else the default
         nm = node.args[0].value
         if nm in st.vars or nm in engine.bound:
-            return engine.eval(st, ast.Name(id=nm, ctx=ast.Load()))
+            cur = engine.eval(st, ast.Name(id=nm, ctx=ast.Load()))
+            flag = st.vars.get("bound!" + nm)
+            if flag is not None and not z3.is_true(flag.term):
+                dflt = engine.eval(st, node.args[1])
+                if isinstance(cur, V) and isinstance(dflt, V) and len(cur.c) == 1:
+                    return V(cur.t, [z3.If(flag.term, cur.term, engine.coerce(dflt, cur.t).term)])
+                raise Unsupported("ifbound of a container")
+            return cur
         return engine.eval(st, node.args[1])
+    if name == "isbound":
+        # isbound('x'): the local x has been assigned on this path
+        nm = node.args[0].value
+        flag = st.vars.get("bound!" + nm)
+        if flag is not None:
+            return flag
+        return Ty.mk_bool(nm in st.vars or nm in engine.bound)
     if name == "count_in":
         # count_in(xs, k, t) = #{p < t : xs[p] == k} for a sequence of scalars
         from . import colsum as CS
@@ -324,6 +338,12 @@ def method_call(engine, st, base, bv, meth, node):
     kwargs = _kwargs(engine, st, node)
     t = bv.t if isinstance(bv, V) else None
     isref = isinstance(base, Ref)
+    if isinstance(t, (Ty.Map, Ty.Set, Ty.ODict)) and meth in ("pop", "get", "add", "remove", "discard", "setdefault") and args and not engine.spec_mode:
+        # an Optional used as a key: the code relies on it not being None here (None is not a key of this model)
+        a0 = engine.deref(st, args[0])
+        if isinstance(a0, V) and isinstance(a0.t, Ty.Opt) and isinstance(a0.t.t, Ty._Int):
+            engine.oblige(st, z3.Not(a0.c[0]), f"key is not None at line {engine.line(node)}", "safety", node)
+            args[0] = V(a0.t.t, a0.c[1:])
 
     def need_ref():
         if not isref:
